@@ -74,7 +74,7 @@ class World:
         import transaction
         from persistent.list import PersistentList
         from persistent.mapping import PersistentMapping
-        from c11_classes import Node
+        from c11_classes import Node, SelfActNode
         self.case = case
         self.n = case['n']
         self.storage = make_storage(case['kind'], tmpdir, tag, blobs)
@@ -90,6 +90,8 @@ class World:
                 o = PersistentMapping()
             elif i % 3 == 2:
                 o = PersistentList([0])
+            elif i in case.get('selfact', ()):
+                o = SelfActNode()
             else:
                 o = Node()
             self.objs.append(o)
@@ -859,11 +861,25 @@ def gen_case(rng, pid, size, kind):
                     ops.append('rb %d' % rng.randrange(nsp))
                 else:
                     ops.append('rb %d' % rng.randrange(nsp + 2))
-            elif r < 0.93:
+            elif r < 0.92:
                 ops.append('commit')
                 nsp = 0
-            elif r < 0.97:
+            elif r < 0.95:
                 ops.append('abort')
+                nsp = 0
+            elif r < 0.975:
+                # a second connection commits in between: the final commit's replay of the savepoint
+                # store (or a plain store) runs into a conflict
+                e = rng.choice([0, 0, 0, 1, 1, 2, i])
+                ops.append('ext %d %d' % (min(e, n - 1), 10 + rng.randrange(10)))
+            elif r < 0.99:
+                c = rng.random()
+                if c < 0.6:
+                    ops.append('commitf ' + rng.choice(RM_FAILS))
+                elif c < 0.9:
+                    ops.append('commitf store %d' % rng.choice([0, 0, 1, 1, 2, 3]))
+                else:
+                    ops.append('commitf vote')
                 nsp = 0
             else:
                 ops.append('peek %d' % i)
@@ -871,6 +887,70 @@ def gen_case(rng, pid, size, kind):
         ops.append('open')
     ops.append(rng.choice(['commit', 'abort', 'commit']))
     ops += ['read %d' % i for i in range(n)] + ['peek %d' % i for i in range(n)]
+    return dict(kind=kind, n=n, ops=ops)
+
+
+def gen_scenario(rng, pid, kind):
+    """structured programs for the situations random programs reach too rarely (C12): a conflict
+    during the replay of the savepoint store, an object first saved by a LATER savepoint than the one
+    rolled back to, repeated rollbacks around object creation, rollback to a savepoint made before the
+    connection joined, abort after savepoints; with random objects, values and filler steps"""
+    n = rng.choice([4, 5, 6])
+    objs = list(range(1, n))
+    rng.shuffle(objs)
+    a, b, c = objs[0], objs[1], objs[2]
+    val = lambda: rng.randrange(1, 10)
+    t = rng.randrange(7)
+    if t == 6:      # an object that reloads itself when invalidated (oracle only: not in the Lean model)
+        v1, v2 = val(), 10 + val()
+        ops = ['link 0 3', 'mod 3 %d' % v1, 'commit', 'mod 3 %d' % v2, 'sp']
+        if rng.random() < 0.5:
+            ops += ['mod 3 %d' % (20 + val()), 'sp']
+        ops += [rng.choice(['abort', 'rb 0', 'commitf rm after vote', 'commitf store 0', 'mod 0 1']),
+                rng.choice(['abort', 'abort', 'commit']), 'read 3', 'mod 0 %d' % val(), 'commit', 'peek 3']
+        ops += ['read %d' % i for i in range(4)]
+        return dict(kind=kind, n=4, ops=ops, selfact=[3])
+    if t == 0:      # conflict while the final commit replays the savepoint store
+        ops = ['link 0 %d' % a, 'link 0 %d' % b, 'commit', 'mod 0 %d' % val(), 'mod %d %d' % (a, val()),
+               'mod %d %d' % (b, val()), 'sp']
+        if rng.random() < 0.5:
+            ops += ['mod %d %d' % (rng.choice([0, a, b]), val())]
+        if rng.random() < 0.3:
+            ops += ['sp']
+        ops += ['ext %d %d' % (rng.choice([0, 0, a, b]), 10 + val()), 'commit']
+    elif t == 1:    # first record of an object written by a later savepoint
+        ops = ['link 0 %d' % a, 'link %d %d' % (a, b), 'commit', 'mod 0 %d' % val(), 'sp',
+               'mod %d %d' % (a, val()), 'sp']
+        if rng.random() < 0.5:
+            ops += ['mod %d %d' % (b, val()), 'sp']
+        ops += ['rb 0', 'read %d' % a, 'read %d' % b]
+        if rng.random() < 0.5:
+            ops += ['mod %d %d' % (a, val()), 'sp', 'rb 0', 'read %d' % a]
+        ops += [rng.choice(['commit', 'abort'])]
+    elif t == 2:    # repeated rollbacks around object creation
+        ops = ['mod 0 %d' % val(), 'sp', 'link 0 %d' % a, 'sp', 'rb 0', 'link 0 %d' % b, 'sp', 'rb 0',
+               'read %d' % b, 'read 0']
+        if rng.random() < 0.5:
+            ops += ['link 0 %d' % b, 'sp', 'link %d %d' % (b, c), 'rb 0']
+        ops += [rng.choice(['commit', 'abort'])]
+    elif t == 3:    # savepoint before joining, rollback to it after savepoints of the joined connection
+        ops = ['link 0 %d' % a, 'commit', 'sp', 'mod %d %d' % (a, val()), 'sp', 'link %d %d' % (a, b), 'sp',
+               'rb %d' % rng.choice([0, 0, 1]), 'read %d' % a, 'mod 0 %d' % val(), 'sp', 'rb 0', 'read 0',
+               rng.choice(['commit', 'abort'])]
+    elif t == 4:    # abort (or failing commit) after savepoints and rollbacks
+        ops = ['link 0 %d' % a, 'commit', 'mod %d %d' % (a, val()), 'link %d %d' % (a, b), 'sp',
+               'mod %d %d' % (b, val()), 'sp', 'rb %d' % rng.choice([0, 1]),
+               rng.choice(['abort', 'commitf rm after vote', 'commitf store 0', 'commitf store 1',
+                           'commitf rm before finish'])]
+    else:           # explicit add, savepoint, rollback, add again
+        ops = ['add %d' % a, 'mod %d %d' % (a, val()), 'sp', 'link %d %d' % (a, b), 'sp', 'rb 0',
+               'read %d' % a, 'link 0 %d' % a, 'sp', 'rb 1', 'rb 0', rng.choice(['commit', 'abort'])]
+    # filler
+    for _ in range(rng.randrange(3)):
+        pos = rng.randrange(len(ops) + 1)
+        i = rng.randrange(n)
+        ops.insert(pos, rng.choice(['read %d' % i, 'mod %d %d' % (i, val()), 'peek %d' % i]))
+    ops += ['read %d' % i for i in range(n)] + ['commit'] + ['peek %d' % i for i in range(n)]
     return dict(kind=kind, n=n, ops=ops)
 
 
@@ -914,7 +994,7 @@ def load_corpus(pid):
             if f.endswith('.json'):
                 with open(os.path.join(d, f)) as fh:
                     c = json.load(fh)
-                out.append(dict(kind=c['kind'], n=c['n'], ops=c['ops']))
+                out.append({k: c[k] for k in ('kind', 'n', 'ops', 'selfact') if k in c})
     return out
 
 
@@ -952,7 +1032,7 @@ def run_check(pid, argv=None):
     if ck.replay_path:
         with open(ck.replay_path) as f:
             c = json.load(f)['case']
-        cases = [dict(kind=c['kind'], n=c['n'], ops=c['ops'])]
+        cases = [{k: c[k] for k in ('kind', 'n', 'ops', 'selfact') if k in c}]
         ncases = 0
     kinds = KINDS
     for m in range(ncases):
@@ -960,6 +1040,8 @@ def run_check(pid, argv=None):
         if pid == 'C11':
             for kind in (kinds if not ck.thorough else [kinds[m % 3]]):
                 cases.append(gen_case(ck.rng, pid, size, kind))
+        elif m % 5 == 4:
+            cases.append(gen_scenario(ck.rng, pid, kinds[(m // 5) % 3]))
         else:
             cases.append(gen_case(ck.rng, pid, size, kinds[m % 3]))
     # model: one driver process for everything (several in the thorough tier)
@@ -1021,16 +1103,19 @@ def run_check(pid, argv=None):
             ops = case['ops']
 
             def fails(sub, sig=sig, case=case):
-                c2 = dict(kind=case['kind'], n=case['n'], ops=sub)
+                c2 = dict(case, ops=sub)
                 v = judge(c2, real_of(c2, ck.tmp), pid)
                 return v is not None and v[0] != 'taint' and v[1] == sig
             small = ddmin(ops[:idx], fails, max_tests=150)
-            c2 = dict(kind=case['kind'], n=case['n'], ops=small)
+            c2 = dict(case, ops=small)
             r2 = real_of(c2, ck.tmp)
             v2 = judge(c2, r2, pid)
             if v2 is None or v2[0] == 'taint' or v2[1] != sig:
                 c2, r2, v2 = dict(case, ops=ops[:idx]), real[:idx + 1], verdict
             ck.violation(v2[1], v2[2], dict(c2, real=r2, at=v2[0]))
+        if case.get('selfact'):
+            ck.count('oracle-only:self-activating-object')
+            cut = 0         # such objects are not in the Lean model: judged by the oracle alone
         for k in range(min(cut, len(real))):
             if real[k] != model[k]:
                 op = (['reset'] + case['ops'])[k]
